@@ -793,6 +793,10 @@ class SimContext:
                     data = await orig(reader, *a, **k)
                     sock = getattr(getattr(reader, "_transport", None), "_sock", None)
                     conn = getattr(sock, "conn", None)
+                    if conn is not None:
+                        reader.__dict__["_verif_conn"] = conn
+                    else:
+                        conn = reader.__dict__.get("_verif_conn")
                     sim.rec("app-read", getattr(conn, "cid", None), name, bytes(data).hex())
                     tag = getattr(conn, "tag", None)
                     if tag is not None:
@@ -812,6 +816,12 @@ class SimContext:
                     blob = b"".join(bytes(x) for x in data) if name == "writelines" else bytes(data)
                     sock = getattr(getattr(writer, "_transport", None), "_sock", None)
                     conn = getattr(sock, "conn", None)
+                    if conn is not None:
+                        writer.__dict__["_verif_conn"] = conn
+                    else:
+                        # the transport has let go of its socket (closed by the client itself, or lost): what the
+                        # application hands to it now still belongs to the connection this writer was made for
+                        conn = writer.__dict__.get("_verif_conn")
                     sim.rec("app-write", getattr(conn, "cid", None), blob.hex())
                     tag = getattr(conn, "tag", None)
                     if tag is not None:
